@@ -32,6 +32,8 @@ type mReq struct {
 	Raw      []byte
 	TRecv    int64
 	Answered bool
+	Src      string // reader that received it (listener socket or control connection)
+	RC       int    // that reader's read-call count when it was received
 	Auth     int // -1 no, 0 maybe, 1 yes
 	AuthWhy  string
 	User     string
@@ -105,6 +107,11 @@ type Monitor struct {
 	ctlEnded         map[string]int64 // client -> time its TCP control connection ended (server view)
 	orphanDeletes    map[string][]int64 // allocation-deleted events seen before the Allocate response
 	leakReported     map[string]bool
+	relayConns       []*relayConn
+	dataConns        map[uint32]*TCPConn
+	unboundReported  map[uint32]bool
+	readCalls        map[string]int // reader -> number of read calls so far (handler completion)
+	curSrc           string
 	InboundMTU       int
 }
 
@@ -124,7 +131,7 @@ func NewMonitor(k *Kernel, n *Net, p *Plan) *Monitor {
 	m := &Monitor{K: k, Net: n, P: p, M: NewModel(perm, ch, life), users: map[string]string{}, denyPeer: map[string]bool{},
 		denyClient: map[string]bool{}, nonces: map[string]*nonceInfo{}, intents: map[string]*Intent{}, reqs: map[string][]*mReq{},
 		evCount: map[string]int{}, states: map[string]struct{}{}, srvWriteFailed: map[string]bool{}, MustMax: 1400,
-		tcpCtl: map[*TCPConn]*ctlStream{}, relayErr: map[string]int64{}, relayWriteErr: map[string]bool{}, orphanDeletes: map[string][]int64{}, leakReported: map[string]bool{}, ctlEnded: map[string]int64{}}
+		tcpCtl: map[*TCPConn]*ctlStream{}, relayErr: map[string]int64{}, relayWriteErr: map[string]bool{}, orphanDeletes: map[string][]int64{}, leakReported: map[string]bool{}, dataConns: map[uint32]*TCPConn{}, unboundReported: map[uint32]bool{}, readCalls: map[string]int{}, ctlEnded: map[string]int64{}}
 	m.InboundMTU = p.Cfg.InboundMTU
 	if m.InboundMTU == 0 {
 		m.InboundMTU = 1600
@@ -225,7 +232,19 @@ func (m *Monitor) authentic(msg *stun.Message, now int64) (int, string, string) 
 
 // ---------------------------------------------------------------- observer: UDP
 
-func (m *Monitor) UDPReadCall(s *UDPSock) {}
+func (m *Monitor) UDPReadCall(s *UDPSock) {
+	if s.Role == "listener" {
+		m.mu.Lock()
+		m.readCalls["udp:"+s.Info.Addr]++
+		m.mu.Unlock()
+	}
+}
+
+// handlerDone: the reader that received r has asked for its next message, i.e. the handler
+// of r has returned.
+func (m *Monitor) handlerDone(r *mReq) bool {
+	return r.Src == "" || m.readCalls[r.Src] > r.RC
+}
 
 func (m *Monitor) UDPRead(s *UDPSock, d *Dgram, n int) {
 	now := m.K.Now()
@@ -233,6 +252,7 @@ func (m *Monitor) UDPRead(s *UDPSock, d *Dgram, n int) {
 	defer m.mu.Unlock()
 	switch {
 	case s.Role == "listener":
+		m.curSrc = "udp:" + s.Info.Addr
 		m.srvRecv(ustr(d.From), d.Payload, n == len(d.Payload) && n < m.InboundMTU, now)
 	case s.Role == "relay":
 		m.inbs = append(m.inbs, &mInb{RelayKey: s.Info.Addr, From: ustr(d.From), Payload: d.Payload, NRead: n, TRecv: now})
@@ -288,7 +308,7 @@ func (m *Monitor) srvRecv(client string, b []byte, whole bool, now int64) {
 	if msg, ok := decodeSTUN(b); ok {
 		switch msg.Type.Class {
 		case stun.ClassRequest:
-			r := &mReq{Client: client, TID: msg.TransactionID, Method: msg.Type.Method, Msg: msg, Raw: b, TRecv: now}
+			r := &mReq{Client: client, TID: msg.TransactionID, Method: msg.Type.Method, Msg: msg, Raw: b, TRecv: now, Src: m.curSrc, RC: m.readCalls[m.curSrc]}
 			r.Auth, r.AuthWhy, r.User = m.authentic(msg, now)
 			h := md5.Sum(b)
 			r.Intent = m.intents[client+"|"+hex.EncodeToString(h[:])]
@@ -1295,11 +1315,12 @@ func (m *Monitor) Idle(now int64, allocCount int, lossFree bool) {
 				}
 				continue
 			}
-			if r.TRecv >= now {
+			if r.TRecv >= now || !m.handlerDone(r) {
 				keepR = append(keepR, r)
 				continue
 			}
 			r.Answered = true
+			keepR = append(keepR, r)
 			m.unanswered(r, now)
 		}
 		if len(keepR) == 0 {
@@ -1329,6 +1350,7 @@ func (m *Monitor) Idle(now int64, allocCount int, lossFree bool) {
 		}
 	}
 	m.registry(now)
+	m.tcpIdle(now)
 	st := m.M.Snapshot(now)
 	m.states[st] = struct{}{}
 }
@@ -1429,6 +1451,7 @@ func (m *Monitor) Final(now int64) {
 	if m.P.Cfg.Events {
 		m.pairEvents()
 	}
+	m.finalTCP(now)
 }
 
 func (m *Monitor) pairEvents() {
